@@ -36,6 +36,7 @@ def bounds(tier):
             "cbldm, offsets and spread": f"offset letters (4 bases) 3..{5 if q else 6} items; values {{0,1,2,4,5,10,14}} 3..{5 if q else 6} items",
             "before the cuts": "an interrupted call (cut 0) followed by an unlimited call: the latter must be valid and optimal",
             "after the cuts": "an unlimited run in the same process must reproduce the first unlimited result",
+            "ckk generator, dominant item": f"every multiset of 4..{5 if q else 6} values from 1..{4 if q else 5} plus one item worth their total -1/+0/+1/+3, k=3..4, every yield prefix",
             "ckk generator": f"values 0..{5 if q else 6}, 1..{6 if q else 7} items, k=2..4, every yield prefix"}
 
 
@@ -47,6 +48,15 @@ def tasks(tier):
     for ch in scopes.chunk_multisets(range(0, 6 if q else 7), 1, 6 if q else 7, 40):
         ts.append(("cbldm", ch, None))
         ts.append(("ckkgen", ch, (2, 3, 4)))
+    # a dominant item (about as large as all the others together) over every small remainder: for three and more bins the
+    # remainder is still a partitioning problem of its own
+    dom = []
+    for rem in spaces.multisets(range(1, 5 if q else 6), 4, 5 if q else 6):
+        for extra in (-1, 0, 1, 3):
+            if sum(rem) + extra >= max(rem):
+                dom.append(tuple(sorted(rem + (sum(rem) + extra,), reverse=True)))
+    for ch in spaces.chunked(dom, 40):
+        ts.append(("ckkgen", ch, (3, 4)))
     for ch in scopes.chunk_multisets(range(0, 5), 2, 4 if q else 5, 8):
         ts.append(("cg-named", ch, (2, 3)))
     for ch in spaces.chunked(scopes.offset_multisets(3, 5, scopes.OFFSET_BASES[:1] if q else scopes.OFFSET_BASES), 8):
